@@ -1445,6 +1445,15 @@ class Interp:
                 return recv.d[k]
             if meth == "count":
                 return 1 if self.ev(args[0], env) in recv.d else 0
+            if meth == "find" and args:
+                k_ = self.ev(args[0], env)
+                if isinstance(k_, bool):
+                    k_ = int(k_)
+                sn = recv.snapshot()
+                for i_, pr_ in enumerate(sn.items):
+                    if pr_.f["first"] == k_:
+                        return Iter(sn, i_)
+                return Iter(sn, len(sn.items))
             if meth in ("insert", "emplace") and args:
                 # insert(pair) / emplace(k, v): keeps an existing mapping, as std::map does
                 if len(args) == 1:
